@@ -9,11 +9,11 @@ C2 == [issuer |-> "i2", serial |-> 2, key |-> "k2"]
 C1b == [issuer |-> "i1", serial |-> 1, key |-> "k3"]       \* another certificate with the issuer and serial number of C1
 Bags == {<<C1>>, <<C1, C2>>, <<C2, C1>>, <<C1b, C1>>}
 Absent == <<"absent", "">>
-NoAttrs == [present |-> FALSE, ctype |-> "", digest |-> <<"", "">>]
-A(ctype, digest) == [present |-> TRUE, ctype |-> ctype, digest |-> digest]
+NoAttrs == [present |-> FALSE, ctype |-> "", digest |-> <<"", "">>, order |-> ""]
+A(ctype, digest) == [present |-> TRUE, ctype |-> ctype, digest |-> digest, order |-> "der"]
 Over(a, sf) == IF a.present THEN [kind |-> "attrs", sf |-> "", attrs |-> a] ELSE [kind |-> "sf", sf |-> sf, attrs |-> NoAttrs]
 SI(sid, alg, a, key, signed) == [sid |-> sid, alg |-> alg, attrs |-> a, sig |-> [key |-> key, over |-> Over(signed, "sf0")]]
-Tampers == {"none", "sig", "sid_serial", "sid_other", "attr_digest", "attr_digest_resigned", "attr_ctype_resigned", "attr_noctype_resigned", "attr_nodigest_resigned", "signed_by_other"}
+Tampers == {"none", "sig", "sid_serial", "sid_other", "attr_digest", "attr_digest_resigned", "attr_ctype_resigned", "attr_noctype_resigned", "attr_nodigest_resigned", "signed_by_other", "attr_reordered", "attr_reordered_signed"}
 \* the signer info a signer holding k1 produced for .SF "sf0", then altered as named
 Signer(t, alg, withAttrs) ==
   LET good == IF withAttrs THEN A("data", <<alg, "sf0">>) ELSE NoAttrs
@@ -27,6 +27,8 @@ Signer(t, alg, withAttrs) ==
        [] t = "attr_digest_resigned" -> SI(id1, alg, A("data", <<alg, "sf1">>), "k1", A("data", <<alg, "sf1">>))
        [] t = "attr_ctype_resigned" -> SI(id1, alg, A("other", <<alg, "sf0">>), "k1", A("other", <<alg, "sf0">>))
        [] t = "attr_noctype_resigned" -> SI(id1, alg, A("absent", <<alg, "sf0">>), "k1", A("absent", <<alg, "sf0">>))
+       [] t = "attr_reordered" -> SI(id1, alg, [good EXCEPT !.order = "swapped"], "k1", good)                                   \* same attributes, stored in another order
+       [] t = "attr_reordered_signed" -> SI(id1, alg, [good EXCEPT !.order = "swapped"], "k1", [good EXCEPT !.order = "swapped"])   \* signed in that order: verifies
        [] t = "attr_nodigest_resigned" -> SI(id1, alg, A("data", Absent), "k1", A("data", Absent))
 Applicable(t, withAttrs) == withAttrs \/ t \in {"none", "sig", "sid_serial", "sid_other", "signed_by_other"}
 SignerLists(alg, wa) == LET T == {t \in Tampers : Applicable(t, wa)} IN
